@@ -22,11 +22,48 @@ class Path:
 
 
 class Interp:
-    def __init__(self, atom, event, fixed=None):
-        """atom(expr) -> hashable key or None; event(call) -> label or None; fixed: {atom: bool} preset."""
+    def __init__(self, atom, event, fixed=None, default=None, select=None, inline=None):
+        """atom(expr) -> hashable key or None; event(call) -> label or None; fixed: {atom: bool} preset.
+        Opt-in precision (used by decision-table rules that evaluate a whole function body):
+          default(atom) -> bool|None  value of atoms not in `fixed`
+          select(match) -> [arm]|None arms of a `match` that can be taken under the scenario being evaluated
+          inline(call)  -> body|None  evaluate a call to a small local predicate through its body
+        With `select` set, boolean `let` bindings are tracked and `match`/`if` are evaluated as values."""
         self.atom = atom
         self.event = event
         self.fixed = fixed or {}
+        self.default = default
+        self.select = select
+        self.inline = inline
+        self.precise = select is not None
+
+    def arms_for(self, m, path):
+        """[(arm, path)] alternatives of a match, honouring guards.  When `select` names the arms whose pattern
+        can match (in order), the first unguarded one ends the search; otherwise every arm is an alternative."""
+        arms = self.select(m) if self.select else None
+        out = []
+        if arms is None:
+            for arm in m["arms"]:
+                q = path.fork()
+                if "guard" in arm:
+                    out.extend((arm, pp) for v, pp in self.cond(arm["guard"], q) if v)
+                else:
+                    out.append((arm, q))
+            return out
+        live = [path]
+        for arm in arms:
+            if not live:
+                break
+            if "guard" in arm:
+                nxt = []
+                for p in live:
+                    for v, pp in self.cond(arm["guard"], p):
+                        (out.append((arm, pp)) if v else nxt.append(pp))
+                live = nxt
+            else:
+                out.extend((arm, p) for p in live)
+                live = []
+        return out
 
     # ---- boolean evaluation ---------------------------------------------
     def cond(self, e, path):
@@ -48,6 +85,36 @@ class Interp:
                 else:
                     out.extend(self.cond(e["r"], lp))
             return out
+        if self.precise:
+            if k == "Var" and ("var", e.get("var")) in path.assign:
+                return [(path.assign[("var", e["var"])], path)]
+            if k in ("Scope", "Use", "NeverToAny") and "e" in e:
+                return self.cond(e["e"], path)
+            if k == "Block" and "tail" in e:
+                out = []
+                ps = [path]
+                for st in e["stmts"]:
+                    ps = self.exec(st, ps)
+                for pp in ps:
+                    if pp.done:
+                        out.append((pp.ret, pp))
+                    else:
+                        out.extend(self.cond(e["tail"], pp))
+                return out
+            if k == "If" and "else" in e:
+                out = []
+                for v, pp in self.cond(e["cond"], path):
+                    out.extend(self.cond(e["then"] if v else e["else"], pp))
+                return out
+            if k == "Match" and not str(e.get("src", "")).startswith(("TryDesugar", "ForLoopDesugar")):
+                out = []
+                for arm, pp in self.arms_for(e, path):
+                    out.extend(self.cond(arm["body"], pp))
+                return out
+            if k == "Call" and self.inline and self.atom(e) is None:
+                body = self.inline(e)
+                if body is not None:
+                    return self.cond(body, path)
         if k == "Let":
             # `if let PAT = expr`: unknown unless atom
             a = self.atom(e)
@@ -61,6 +128,9 @@ class Interp:
                 neg, a = True, a[1]
             if a in self.fixed:
                 v = self.fixed[a]
+                return [((not v) if neg else v, path)]
+            if self.default is not None and self.default(a) is not None:
+                v = self.default(a)
                 return [((not v) if neg else v, path)]
             if a in path.assign:
                 v = path.assign[a]
@@ -108,6 +178,13 @@ class Interp:
             return ps
         if k == "LetStmt":
             if "init" in e:
+                if self.precise and e["pat"].get("k") == "Bind" and "sub" not in e["pat"] and e["init"].get("k") in ("Match", "If", "Logical", "Unary", "Lit", "Var", "Block"):
+                    out = []
+                    for v, pp in self.cond(e["init"], p):
+                        if isinstance(v, bool) and not pp.done:
+                            pp.assign[("var", e["pat"]["var"])] = v
+                        out.append(pp)
+                    return out
                 return self.exec(e["init"], [p])
             return [p]
         if k == "If":
@@ -135,13 +212,16 @@ class Interp:
                 return self.exec(e["scrut"], [p])
             if src.startswith("ForLoopDesugar"):
                 ps = self.exec(e["scrut"], [p])
+                if len(e["arms"]) == 1:
+                    # outer `match into_iter(..) { mut iter => loop {..} }`
+                    return self.exec(e["arms"][0]["body"], ps)
+                # inner `match next(iter) { None => break, Some(x) => body }`:
                 # loop body once (represents >=1 iteration) and zero times
                 out = []
                 for pp in ps:
                     zero = pp.fork()
                     out.append(zero)
-                    arm = e["arms"][0]
-                    out.extend(self.exec(arm["body"], [pp]))
+                    out.extend(self.exec(e["arms"][-1]["body"], [pp]))
                 return out
             ps = self.exec(e["scrut"], [p])
             out = []
@@ -188,7 +268,7 @@ class Interp:
             if p.done:
                 out.append(p); continue
             k = e.get("k")
-            if k in ("Lit", "Unary", "Logical") or self.atom(e) is not None:
+            if k in ("Lit", "Unary", "Logical") or self.atom(e) is not None or (self.precise and k in ("Var", "Match", "Call", "If")):
                 for v, pp in self.cond(e, p):
                     pp.ret = v
                     out.append(pp)
